@@ -6,9 +6,13 @@ TOKENS = ["$", "@", ".", "..", "[", "]", "(", ")", ",", ":", "?", "*", "!", "=="
           "1.0", "-", "'a'", '"a"', "'", '"', "\\", "true", "false", "null", "TRUE", "True", "Null", "length(",
           "count(", "match(", "value(", "search(", "a", "_", "a1", " ", "\t", "\n", "\r", "  ", "\\u0041", "\\ud83d",
           "\\'", '\\"', "\\x", "==1", "&&@", "||@", ".a", "[0]", "['a']", "[*]", "..*", "()", "[]", "(@)", "!@",
-          "\u00e9", "\U0001F600", "\x00", "\x1f", "\x7f", "::", ":1", "1:", ",0", "0,"]
+          "\u00e9", "\U0001F600", "\x00", "\x1f", "\x7f", "::", ":1", "1:", ",0", "0,",
+          # look-alikes: digits and letters that Python's int()/str methods accept but the grammar does not
+          "\u0664", "\uff10", "\u0967", "\uff21", "\uff41", "\u00b2", "\u2028", "\u00a0", "\ufeff", "\u2212", "\uff0e",
+          "\uff3b", "\u02bc", "\u2018", "\u201c"]
 
-EDITS = ["delete", "insert", "replace", "transpose", "duplicate", "delete-range", "insert-blank", "case"]
+EDITS = ["delete", "insert", "replace", "transpose", "duplicate", "delete-range", "insert-blank", "case", "wrap", "wrap",
+         "replace-digit"]
 
 
 def edit(text: str, r):
@@ -37,6 +41,17 @@ def edit(text: str, r):
     if kind == "insert-blank":
         i = r.randrange(n + 1)
         return text[:i] + r.choice([" ", "\t", "\n", "\r"]) + text[i:], kind
+    if kind == "wrap" and n > 2:
+        # wrap a short span in parentheses / a negation / brackets (both ends inserted at once)
+        i = r.randrange(1, n)
+        j = min(n, i + r.randrange(1, 14))
+        l, rr = r.choice([("(", ")"), ("(", ")"), ("!(", ")"), ("((", "))"), ("[", "]"), ("'", "'"), ("( ", " )")])
+        return text[:i] + l + text[i:j] + rr + text[j:], kind
+    if kind == "replace-digit" and n > 0:
+        ds = [i for i, c in enumerate(text) if c in "0123456789abcdefABCDEF"]
+        if ds:
+            i = r.choice(ds)
+            return text[:i] + r.choice(["\u0664", "\uff10", "\u0967", "\uff21", "\uff41", "_", "+", " "]) + text[i + 1:], kind
     if kind == "case" and n > 0:
         i = r.randrange(n)
         c = text[i]
